@@ -169,11 +169,12 @@ func ruleVWire(c *engine.Context) *report.Rule {
 		return r
 	}
 	p := c.P
+	requireRunning(r, pm)
 	ruleVOps(c) // fills builderMeanings
 	meanings, _ := c.Memo("builderMeanings", func() interface{} { return map[*ssa.Function]token.Token{} }).(map[*ssa.Function]token.Token)
 	blocks, _ := actionBlocksOf(c)
 	toks := []string{"==", "!=", "<=", "<", ">=", ">", "||", "&&"}
-	ta := tokenActions(pm.src, toks)
+	ta := tokenActions(pm.run, toks)
 	want := map[string]token.Token{"<=": token.LEQ, "<": token.LSS, ">=": token.GEQ, ">": token.GTR}
 	seenBuilder := map[string]*ssa.Function{}
 	for _, tok := range toks {
@@ -243,7 +244,8 @@ func ruleVPrec(c *engine.Context) *report.Rule {
 		r.InfraFail("%s", pm.err)
 		return r
 	}
-	g := pm.src
+	requireRunning(r, pm)
+	g := pm.run
 	hasTok := func(name, tok string) bool {
 		rr := g.ByName[name]
 		if rr == nil {
